@@ -21,6 +21,7 @@ def check_case(rep, case, stats):
     x = case["x"]
     base = {(b["name"], b["aff"]): b for b in case["base"]}
     cache = {}
+    aliases = []
     scale_of = {}
     for (name, aff), b in base.items():
         A = gem.affinity(name, aff, x)
@@ -44,8 +45,15 @@ def check_case(rep, case, stats):
                               f"{type(e).__name__}: {e}", {"case": _c(case), "name": name, "aff": aff},
                               tags=(name, f"K={k}", f"n={n}", "raises"))
                 continue
-            G = np.asarray(G, dtype=float)
+            Graw = G
+            G = np.array(G, dtype=float, copy=True)
+            G2 = np.array(G2, dtype=float, copy=True)
+            try:
+                g(np.ascontiguousarray(P[::-1, ::-1]), None if A is None else A.copy(), return_grad=True)     # the object's next batch
+            except Exception:
+                pass
             cache[(name, aff, label)] = G
+            aliases.append((name, aff, label, np.array(Graw, dtype=float, copy=True), G))      # as the returned array looks NOW
             problems = []
             if G.shape != P.shape:
                 problems.append(f"gradient shape {G.shape} != {P.shape}")
@@ -65,6 +73,12 @@ def check_case(rep, case, stats):
             for pr in problems:
                 rep.violation(f"n={n} K={k} P={case['a']}/{q} x={x}: {name}[{aff}] via {label}: {pr}",
                               {"case": _c(case), "name": name, "aff": aff}, tags=(name, f"K={k}", f"n={n}", "shape"))
+    # what was returned as the gradient at P stays the gradient at P: the evaluations made since (same object) must not have
+    # rewritten the returned array
+    for (name, aff, label, Graw, Gcopy) in aliases:
+        if np.shape(Graw) == Gcopy.shape and not np.array_equal(np.asarray(Graw, dtype=float), Gcopy):
+            rep.violation(f"n={n} K={k} P={case['a']}/{q} x={x}: the gradient array returned by {name}[{aff}] via {label} was overwritten "
+                          f"by a later evaluation of the same object", {"case": _c(case), "name": name, "aff": aff}, tags=(name, "alias"))
     for d in case["dirs"]:
         i, kk = d["i"] - 1, d["k"] - 1
         for res in d["r"]:
